@@ -42,18 +42,24 @@ TIE = {
     'order': 40,
     'chain': ['MalVerif.Py.AbsVisitor', 'MalVerif.Py.TieVisitorBase', 'MalVerif.Py.TieVisitorLeaves',
               'MalVerif.Py.TieVisitorResolve', 'MalVerif.Py.TieVisitorClause', 'MalVerif.Py.TieVisitorExpr',
-              'MalVerif.Py.TieVisitorTtc', 'MalVerif.Py.TieVisitorAssoc', 'MalVerif.Py.TieVisitorTop',
-              'MalVerif.PropsGen.C04'],
+              'MalVerif.Py.TieVisitorTtc', 'MalVerif.Py.TieVisitorAssoc', 'MalVerif.Py.TieVisitorAssocs',
+              'MalVerif.Py.TieVisitorMal', 'MalVerif.Py.TieVisitorEq', 'MalVerif.Py.TieVisitorTop',
+              'MalVerif.PropsGen.C04', 'MalVerif.PropsGen.C17'],
     'needs': {
         'C04': ['MalVerif.Py.TieVisitorTop', 'MalVerif.Py.TieVisitorTtc', 'MalVerif.Py.TieVisitorAssoc',
+                'MalVerif.Py.TieVisitorAssocs', 'MalVerif.Py.TieVisitorMal', 'MalVerif.Py.TieVisitorEq',
                 'MalVerif.PropsGen.C04'],
+        'C17': ['MalVerif.Py.TieVisitorAssoc', 'MalVerif.Py.TieVisitorAssocs', 'MalVerif.Py.TieVisitorMal',
+                'MalVerif.Py.TieVisitorEq', 'MalVerif.PropsGen.C04', 'MalVerif.PropsGen.C17'],
     },
     'sources': {
         'C04': 'language/compiler/mal_visitor.py: every method of malVisitor is translated (self.compiler.compile is a parameter) and executed '
                'in the correspondence; proved equal to the model: visitExpr, visitParts, visitPart, _resolve_part_ID_type, visitSetop, visitType, '
                'visitVarsubst, visitPrecondition, visitReaches, visitVariable, visitTtc, visitTtcexpr, visitTtcterm, visitTtcfact, visitTtcatom, '
                'visitTtcdist, visitNumber, visitMeta, visitTag, visitCias, visitCia, visitSteptype, visitInclude, visitDefine, visitField, '
-               'visitLinkname; language/compiler/mal_parser.py: the accessor methods of the context classes (tables)',
+               'visitLinkname, visitAssociation, _post_process_multitudes, visitAssociations, visitMal (given the declaration visits); '
+               'language/compiler/mal_parser.py: the accessor methods of the context classes (tables)',
+        'C17': 'language/compiler/mal_visitor.py: visitMal (a failing include makes the whole visit fail), visitInclude',
     },
 }
 
